@@ -18,7 +18,8 @@ H == INSTANCE H_EventEq
 HD == INSTANCE H_DocBoundaries
 R == INSTANCE EmitRead
 
-CONSTANTS Mode, MaxEvents, MaxDocs,
+CONSTANTS Mode, MaxEvents, MaxDocs, EmptyColls,   \* EmptyColls: collections stay empty (document-level configurations)
+          MaxNest,     \* MaxNest: collections nested at most this deep (grammar mode)
           Canons, Bests, Widths, Unis, LBs,   \* option product: canonical, indent, width, allow_unicode, line_break ("n","r","rn")
           Vs, Ss, SAs, STs, SIs,        \* scalar events: value classes, style requests, anchors, tags, implicit pairs
           CAs, CTs, CIs, FSs,           \* collection starts: anchors, tags, implicit flags, flow_style values
@@ -55,6 +56,8 @@ Feed == /\ Running(m) /\ NeedMoreEvents(m.events) /\ Len(hist) < MaxEvents
         /\ \E e \in Alphabet :
              /\ Mode = "grammar" => (G!MonStep(g, e.k) # G!Reject /\ Len(hist) + 1 + MinRemaining(G!MonStep(g, e.k)) <= MaxEvents)
              /\ e.k = "DocumentStart" => NDocs(hist) < MaxDocs
+             /\ (Mode = "grammar" /\ e.k \in {"SequenceStart", "MappingStart"}) => Len(g) - 2 < MaxNest
+             /\ (EmptyColls /\ g # <<>> /\ g[Len(g)] \in {"Q", "M0"}) => e.k \in {"SequenceEnd", "MappingEnd"}
              /\ m' = [m EXCEPT !.events = Append(@, e), !.trail = {}]
              /\ hist' = Append(hist, e)
              /\ g' = G!MonStep(g, e.k)
